@@ -19,8 +19,9 @@ the outcome:
   * a REAL sum whose first addend `y` has `0.0 + y ≠ y` (only `-0.0`: the sign of a zero sum is not fixed);
   * PERCENTILE with p outside [0, 1]; unreadable lines (C12); joins that cannot be set up (C05).
 Where the sentence is silent but an answer is needed the code is mirrored, and said so at the definition:
-AVG of INTs truncates, the first of several equal extremes is shown by MIN/MAX, STRING_AGG starts at the first
-non-empty text, the element type of ARRAY_AGG is the type of its first element.
+AVG of INTs truncates, the first of several equal extremes is shown by MIN/MAX, the element type of ARRAY_AGG is the
+type of its first element. STRING_AGG is the plain join of ALL non-NULL texts, empty ones included (the code used to
+swallow the delimiter after a leading empty text: finding D67, repaired).
 -/
 namespace Sqlgrep.Spec.Agg
 open Sqlgrep
@@ -207,7 +208,7 @@ def percentileOf (p : Nat) (xs : List Value) : Option Value :=
     let n := sorted.length
     some ((sorted[min (f64ToNat (F64.mul p (F64.ofInt n))) (n - 1)]?).getD .null)
 
-/-- STRING_AGG: the texts joined by the delimiter, starting at the first non-empty text (as in the code) -/
+/-- STRING_AGG: the texts joined by the delimiter (every text, empty or not, is an element) -/
 def joinTexts (delim : Bytes) : List Bytes → Bytes
   | [] => []
   | [s] => s
@@ -235,7 +236,7 @@ def aggregate (k : AggKind) (vs : List Value) : Option Value :=
       | some t => some (.array t vs)
       | none => some (.array .int vs)
   | .stringAgg _ delim =>
-    (texts (nonNull vs)).map (fun ss => if ss.isEmpty then .null else .text (joinTexts delim (ss.dropWhile (·.isEmpty))))
+    (texts (nonNull vs)).map (fun ss => if ss.isEmpty then .null else .text (joinTexts delim ss))
 
 /-! ### the result table -/
 
